@@ -41,11 +41,15 @@ PROPS["C01"] = dict(
 )
 
 PROPS["C03"] = dict(
-    units=[("kani", "prec")],
+    units=[("kani", "prec"), ("verus", "pins")],
     explanation="PARSE_RULES is read from the real lazy_static and compared, for every TokenType, with the documented precedence "
-                "table: level, presence of an infix/prefix parser and associativity; Precedence's derived order is the discriminant order.",
+                "table: level, presence of an infix/prefix parser and associativity; Precedence's derived order is the discriminant order. "
+                "Pins (Verus, real bodies): curr_precedence / peek_precedence / peek_associativity consult the table at the token they are named after (MatchOr for | inside a match pattern); "
+                "peek_valid_expression is the Pratt comparator (continue iff the next operator binds tighter, or as tight when it is right-associative, and is neither ';' nor end of input); "
+                "parse_infix_expression and parse_assignment_expression parse their right operand with the operator's own precedence and parse_prefix_expression with Unary, each by exactly one recursive call.",
     not_covered=["that a Pratt loop over this table yields the documented grouping (precedence-climbing theorem, assumed)",
-                 "that parse_infix_expression/parse_prefix_expression recurse with the operator's own precedence (pins unit, when built)"],
+                 "parse_expression's own loop (prefix call, then infix calls while peek_valid_expression holds): it calls through function values taken from the table and is read, not verified",
+                 "parse_ranges / index / call / dot expressions (their inner calls use Assignment level inside brackets; covered by the stand-in only)"],
     assumptions=["TokenType is a field-less enum with contiguous discriminants (transmute in the harness)"],
     trusted=COMMON_TRUST,
 )
